@@ -1,8 +1,10 @@
 // Package sut builds the system under test from /repo's current working tree
 // (never from a cache of an earlier tree) and runs it. Two channels:
-//   A — the real CLI binary (go build -race -cover ./src)
-//   B — an in-process agent: /verif/harness/agent/agent_test.go overlaid into
-//       /repo/src as a `//go:build verif` test file and built with go test -c.
+//
+//	A — the real CLI binary (go build -race -cover ./src)
+//	B — an in-process agent: /verif/harness/agent/agent_test.go overlaid into
+//	    /repo/src as a `//go:build verif` test file and built with go test -c.
+//
 // Neither modifies /repo: go.mod/go.sum are copied to scratch and passed with
 // -modfile, because GOFLAGS=-mod=mod would otherwise rewrite /repo/go.mod.
 package sut
@@ -138,21 +140,21 @@ func (s *SUT) TempDir(prefix string) string {
 
 type Result struct {
 	Stdout, Stderr []byte
-	Exit           int  // -1 when killed by a signal
+	Exit           int // -1 when killed by a signal
 	Signal         string
 	TimedOut       bool // watchdog fired: inconclusive, never a violation
 }
 
 type Run struct {
-	Args    []string
-	Stdin   []byte // nil => /dev/null ("no piped input"); non-nil => a real pipe
-	StdinFile string // if set, stdin is this file opened read-only (not a char device => "piped")
-	Env     []string // extra env (KEY=VAL)
-	Dir     string
-	Timeout time.Duration
-	StdoutFile string // if set, stdout goes to this path (opened O_WRONLY|O_CREATE|O_TRUNC, or as is for devices)
-	Rlimit  int64  // RLIMIT_FSIZE in bytes through prlimit(1); 0 = none
-	Wrap    []string // command prefix (e.g. strace ...)
+	Args       []string
+	Stdin      []byte   // nil => /dev/null ("no piped input"); non-nil => a real pipe
+	StdinFile  string   // if set, stdin is this file opened read-only (not a char device => "piped")
+	Env        []string // extra env (KEY=VAL)
+	Dir        string
+	Timeout    time.Duration
+	StdoutFile string   // if set, stdout goes to this path (opened O_WRONLY|O_CREATE|O_TRUNC, or as is for devices)
+	Rlimit     int64    // RLIMIT_FSIZE in bytes through prlimit(1); 0 = none
+	Wrap       []string // command prefix (e.g. strace ...)
 }
 
 func (s *SUT) baseEnv(dir string) []string {
@@ -163,7 +165,7 @@ func (s *SUT) baseEnv(dir string) []string {
 		"HOME=" + dir,
 		"TMPDIR=" + tmp,
 		"GOCOVERDIR=" + s.CoverDir,
-		"GORACE=halt_on_error=0 log_path=" + s.RaceLog,
+		"GORACE=halt_on_error=0 atexit_sleep_ms=0 log_path=" + s.RaceLog,
 		"NO_COLOR=1",
 	}
 }
